@@ -79,6 +79,7 @@ func init() {
 			p.ruleA7(c)
 			rows := p.ruleMatrix(c, kinds, "Intersects", 6)
 			c.Notes = append(c.Notes, matrixEvidence(rows)...)
+			p.ruleAccelTables(c, effects(p))
 			p.ruleScanExits(c)
 			p.rulePolyHoles(c)
 			p.ruleB1(c, nil)
@@ -100,6 +101,7 @@ func init() {
 			p.ruleEmptyContainee(c)
 			p.ruleConvexGate(c)
 			p.ruleConvexFSM(c)
+			p.ruleAccelTables(c, effects(p))
 			p.ruleScanExits(c)
 			p.rulePolyHoles(c)
 			p.ruleB1(c, nil)
